@@ -12,6 +12,7 @@ import (
 	"fmt"
 	"os"
 	"sync"
+	"time"
 )
 
 var (
@@ -117,7 +118,17 @@ func verifParam(name string, def int) int {
 	return def
 }
 
-func verifNow() int64 { return 0 }
+var verifT0 time.Time
+
+// verifNow: nanoseconds since the first call (natively: real time; in the engine: the logical clock).
+func verifNow() int64 {
+	verifMu.Lock()
+	defer verifMu.Unlock()
+	if verifT0.IsZero() {
+		verifT0 = time.Now()
+	}
+	return int64(time.Since(verifT0))
+}
 
 // verifSetCase installs the tape and parameters of one replay case.
 func verifSetCase(params map[string]int, tape map[string]uint64) {
